@@ -114,13 +114,31 @@ func newJSession(w *px.Writer, kind, ver string, size uint, timeout time.Duratio
 	if kind == "unite" && size%2 == 0 {
 		s.arena[0], s.arena[1] = make([]int, 1<<15), make([]int, 1<<15)
 	}
+	// the option is varied (0 = the default, 25%): what it does to the ticker period is checked
+	// right here; the stepper drives the firings itself, so the scripts do not depend on it
+	inacc := []uint{25, 0, 1, 5, 10, 20, 50, 100}[(int(size)+int(timeout/time.Second)+nc)%8]
+	var interval func() time.Duration
+	defer func() {
+		if interval == nil || timeout <= 0 {
+			return
+		}
+		eff := inacc
+		if eff == 0 {
+			eff = 25
+		}
+		div := time.Duration(100 / eff)
+		if ii := interval(); ii <= 0 || ii*div > timeout || (ii+1)*div <= timeout {
+			s.fail("C10 constructor: Timeout %v, TimeoutInaccuracy %d%%: the ticker period is %v, not Timeout/floor(100/TimeoutInaccuracy) = %v - elements can stay longer than Timeout*(1+1/floor(100/TimeoutInaccuracy))", timeout, inacc, ii, timeout/div)
+		}
+	}()
 	switch {
 	case kind == "join" && ver == "v2":
 		in := make(chan int)
-		stp, err := j2.VerifNewStepper(j2.Opts[int]{Input: in, JoinSize: size, NoCopy: nocopy, Timeout: timeout, TimeoutInaccuracy: 25})
+		stp, err := j2.VerifNewStepper(j2.Opts[int]{Input: in, JoinSize: size, NoCopy: nocopy, Timeout: timeout, TimeoutInaccuracy: inacc})
 		if err != nil {
 			return nil, "err " + err.Error()
 		}
+		interval = stp.InterruptInterval
 		s.process = func(_ int, xs []int) { stp.Process(xs[0]) }
 		s.pass, s.timeouted, s.setPassAt, s.buffer = stp.Pass, stp.IsTimeouted, stp.SetPassAt, stp.Buffer
 		s.getPassAt = stp.PassAt
@@ -128,10 +146,11 @@ func newJSession(w *px.Writer, kind, ver string, size uint, timeout time.Duratio
 		s.release = stp.Discipline().Release
 	case kind == "unite" && ver == "v2":
 		in := make(chan []int)
-		stp, err := unite.VerifNewStepper(unite.Opts[int]{Input: in, JoinSize: size, NoCopy: nocopy, Timeout: timeout, TimeoutInaccuracy: 25})
+		stp, err := unite.VerifNewStepper(unite.Opts[int]{Input: in, JoinSize: size, NoCopy: nocopy, Timeout: timeout, TimeoutInaccuracy: inacc})
 		if err != nil {
 			return nil, "err " + err.Error()
 		}
+		interval = stp.InterruptInterval
 		s.process = func(_ int, xs []int) { stp.Process(xs) }
 		s.pass, s.timeouted, s.setPassAt, s.buffer = stp.Pass, stp.IsTimeouted, stp.SetPassAt, stp.Buffer
 		s.getPassAt = stp.PassAt
@@ -144,11 +163,12 @@ func newJSession(w *px.Writer, kind, ver string, size uint, timeout time.Duratio
 			released = make(chan struct{})
 		}
 		ctx, cancel := context.WithCancel(context.Background())
-		stp, err := j1.VerifNewStepper(j1.Opts[int]{Ctx: ctx, Input: in, JoinSize: size, Released: released, Timeout: timeout, TimeoutInaccuracy: 25})
+		stp, err := j1.VerifNewStepper(j1.Opts[int]{Ctx: ctx, Input: in, JoinSize: size, Released: released, Timeout: timeout, TimeoutInaccuracy: inacc})
 		if err != nil {
 			cancel()
 			return nil, "err " + err.Error()
 		}
+		interval = stp.InterruptInterval
 		s.process = func(_ int, xs []int) { stp.Process(xs[0]) }
 		s.pass, s.timeouted, s.setPassAt, s.buffer = stp.Pass, stp.IsTimeouted, stp.SetPassAt, stp.Buffer
 		s.getPassAt = stp.PassAt
